@@ -556,8 +556,10 @@ pub fn c17(run: &mut Run) {
         return;
     }
     let t0 = std::time::Instant::now();
-    let batches = if run.tier == Tier::Quick { 1 } else { 16 };
+    let batches = if run.tier == Tier::Quick { 12 } else { 480 };
     let per = 60usize;
+    let seed = run.seed;
+    let mut results = par_batches(batches, slots_for(batches), |b, slot| run_batch(&generate(&shape_strategy(), seed, &format!("c17-{b}"), per), &format!("c17-{b}"), slot), |r| any_not_ok(r));
     let mut total = 0u64;
     let mut evals = 0u64;
     let mut nontriv = std::collections::HashSet::new();
@@ -591,7 +593,8 @@ pub fn c17(run: &mut Run) {
             evals += sh.sets.iter().map(|s| s.times.len() as u64).sum::<u64>();
         }
         total += shapes.len() as u64;
-        for o in run_batch(&shapes, &format!("c17-{b}"), 0) {
+        let Some(outcomes) = results[b].take() else { break };
+        for o in outcomes {
             match o {
                 Outcome::Ok => {}
                 Outcome::Violation { check_case, detail } => {
